@@ -42,7 +42,7 @@ type Case struct {
 	Src    string            `json:"src,omitempty"`
 	Files  map[string]string `json:"files,omitempty"`
 	Arg    string            `json:"arg,omitempty"`
-	Opts   int               `json:"opts"`  // bit 0 tree dump, bit 1 code dump, bit 2 eval imports, bit 3 nil import map
+	Opts   int               `json:"opts"`  // bit 0 tree dump, bit 1 code dump, bit 2 eval imports, bit 3 nil import map, bit 4 nil fs.FS (when the case has no files)
 	Calls  []CallSpec        `json:"calls,omitempty"`
 }
 
@@ -129,9 +129,15 @@ func execute(c *Case) (stage string, problem string, ticks int64) {
 	var dump bytes.Buffer
 	vm := goat.New()
 	var r goat.Result
-	if c.Entry == "load" {
+	nilFS := c.Opts&16 != 0 && len(c.Files) == 0 // the repository's own tests pass nil for "no files"
+	switch {
+	case c.Entry == "load" && nilFS:
+		r = vm.LoadNilFS(c.Arg, budget, options(c, &dump)...)
+	case c.Entry == "load":
 		r = vm.Load(goat.FS(c.Files), c.Arg, budget, options(c, &dump)...)
-	} else {
+	case nilFS:
+		r = vm.EvalNilFS(c.Src, budget, options(c, &dump)...)
+	default:
 		var fsys = goat.FS(c.Files)
 		r = vm.Eval(fsys, c.Src, budget, options(c, &dump)...)
 	}
@@ -158,6 +164,12 @@ func execute(c *Case) (stage string, problem string, ticks int64) {
 		if rr.Err == nil && len(rr.Rets) != cs.Rets {
 			return o.Stage, fmt.Sprintf("Call(%q) asked for %d results and got %d without an error", cs.Name, cs.Rets, len(rr.Rets)), ticks
 		}
+	}
+	// whatever happened, the host can go on using the VM: a further Eval returns (with a value or an error)
+	after := vm.Eval(nil, "after9 := 40 + 2\nafter9", budget)
+	ticks += after.Ticks
+	if co := classify(after, true); co.Problem != "" {
+		return o.Stage, "a further Eval on the same VM afterwards: " + co.Problem, ticks
 	}
 	return o.Stage, "", ticks
 }
@@ -297,7 +309,7 @@ func minimize(c *Case, problem string) *Case {
 
 func describe(c *Case) string {
 	var sb strings.Builder
-	fmt.Fprintf(&sb, "entry=%s options=%04b arg=%q\n", c.Entry, c.Opts, c.Arg)
+	fmt.Fprintf(&sb, "entry=%s options=%05b arg=%q\n", c.Entry, c.Opts, c.Arg)
 	if c.Src != "" {
 		fmt.Fprintf(&sb, "--- source\n%s\n", clip(c.Src))
 	}
@@ -492,7 +504,7 @@ func genCalls(rt *rapid.T, pkg string, srcs ...string) []CallSpec {
 }
 
 func genEvalCase(rt *rapid.T) *Case {
-	c := &Case{Entry: "eval", Opts: rx.Uniform(rt, 16, "opts")}
+	c := &Case{Entry: "eval", Opts: rx.Uniform(rt, 32, "opts")}
 	switch rx.Uniform(rt, 3, "evalkind") {
 	case 0:
 		c.Src = genSoup(rt)
@@ -624,7 +636,7 @@ func TestTablesAllOptions(t *testing.T) {
 		if !r.Mine(i) {
 			continue
 		}
-		for opts := 0; opts < 16; opts++ {
+		for opts := 0; opts < 32; opts++ {
 			if opts&8 != 0 && opts&4 == 0 {
 				continue
 			}
